@@ -218,7 +218,7 @@ KERNEL_KINDS = ["list", "ndarray", "npint", "kernel2d", "tuple"]
 # numpy UNSIGNED kernel sides make the footprint range of blurring_mask_2d_from empty on the current /repo (-np.uint8(3) == 253):
 # fixes/C10_unsigned_kernel.diff converts the sides in DeriveMask2D.blurring_from.  Switch on once that patch is committed to /repo
 # (the check must exit 0 on the current tree); the kinds then replace "tuple" in every other public blurring case.
-UNSIGNED_KERNELS = False
+UNSIGNED_KERNELS = True
 GEOM_KINDS = ["scalar", "ints", "list", "ndarray", "tuple"]
 EXPS = [-40, 40, -20, 0]
 
